@@ -8,7 +8,7 @@ R-AT        worksheet_range_at(n) & co use `n` itself
 R-WS        worksheets() goes through worksheet_range (or clones the field worksheet_range returns)
 R-NOTFOUND  an unknown sheet name reaches WorksheetNotFound
 """
-from .kit import (walk, walk_anc, walk_k, unwrap, peel, loc, callee, callee_decl, path_local, path_def, lit_value, pat_bindings,
+from .kit import (cond_exprs, walk, walk_anc, walk_k, unwrap, peel, loc, callee, callee_decl, path_local, path_def, lit_value, pat_bindings,
                   pat_is_catchall, pat_variant, pat_covers, norm, norm_ty, field_chain, shape, always_leaves)
 from .r_xml import event_matches, guard_literals, _arm_event_variant
 from .r_tables import pat_keys, variants_built
@@ -358,6 +358,46 @@ def _is_empty_filter_arm(arm):
     return b.get("k") == "Tup" and not b.get("es") or (b.get("k") == "BlockExpr" and not b["block"].get("stmts") and b["block"].get("expr") is None) or b.get("k") == "Continue"
 
 
+def _is_empty_test(e):
+    """`matches!(x.val, DataRef::Empty)` / `x.val == DataRef::Empty` / a match on x.val whose Empty arm yields true"""
+    e = unwrap(e)
+    if not isinstance(e, dict):
+        return False
+    if e.get("k") == "Match" and len(e.get("arms", [])) == 2:
+        v = pat_variant(e["arms"][0]["pat"])
+        sc = peel(e["scrut"])
+        if v and v.endswith("DataRef::Empty") and sc.get("k") == "Field" and sc.get("name") == "val" and lit_value(e["arms"][0]["body"]) is True and lit_value(e["arms"][1]["body"]) is False:
+            return True
+    if e.get("k") == "Binary" and e.get("op") == "==":
+        for a, b in ((e["l"], e["r"]), (e["r"], e["l"])):
+            if (path_def(peel(b)) or "").endswith("DataRef::Empty") and peel(a).get("k") == "Field" and peel(a).get("name") == "val":
+                return True
+    return False
+
+
+def _empty_guarded(n, anc):
+    """is node n only reached when the current cell is not Empty, by an explicit boolean test?"""
+    for x in anc:
+        if x.get("k") == "If":
+            c = unwrap(x["cond"])
+            neg = c.get("k") == "Unary" and c.get("op") == "!" and _is_empty_test(c["e"])
+            if neg and any(y is n for y in walk(x["then"])):
+                return True
+            if _is_empty_test(c) and x.get("els") is not None and any(y is n for y in walk(x["els"])):
+                return True
+        blk = x.get("block") if x.get("k") == "BlockExpr" else (x if x.get("k") == "Block" else None)
+        if blk:
+            for st in blk.get("stmts", []):
+                if any(y is n for y in walk(st)):
+                    break
+                e = unwrap(st.get("e") or {})
+                if e.get("k") == "If" and _is_empty_test(e["cond"]) and always_leaves(e["then"], {"continue"} if False else set()) is not None:
+                    body = unwrap(e["then"])
+                    if any(z.get("k") in ("Continue", "Ret", "Break") for z in walk(body)):
+                        return True
+    return False
+
+
 def r_tight(ctx, rep):
     F = ctx.facts("default")
     fns = [f for f in F.fns if f.impl_trait == "ReaderRef" and f.name.endswith("worksheet_range_ref") and f.impl_self in ("xlsx::Xlsx", "xlsb::Xlsb")]
@@ -375,7 +415,7 @@ def r_tight(ctx, rep):
             # (a) Empty filtered by an earlier arm of the enclosing match
             arm_i, m = None, None
             for i in range(len(anc) - 1, -1, -1):
-                if anc[i].get("k") == "Match" and anc[i].get("src") in ("Normal", None):
+                if anc[i].get("k") == "Match" and anc[i].get("src") in ("Normal", None, "IfLet"):
                     m = anc[i]
                     nxt = anc[i + 1] if i + 1 < len(anc) else n
                     for j, a in enumerate(m["arms"]):
@@ -383,7 +423,9 @@ def r_tight(ctx, rep):
                             arm_i = j
                     break
             key = "%s|R-TIGHT|push#%d|empty-filter" % (fn.name, n_push)
-            if m is not None and arm_i is not None and any(_is_empty_filter_arm(a) and a.get("guard") is None for a in m["arms"][:arm_i]):
+            if _empty_guarded(n, anc):
+                rep.holds("R-TIGHT", key, loc(n), "cells.push is reached only when the cell is not DataRef::Empty (explicit test)")
+            elif m is not None and arm_i is not None and any(_is_empty_filter_arm(a) and a.get("guard") is None for a in m["arms"][:arm_i]):
                 rep.holds("R-TIGHT", key, loc(n), "cells.push is reached only after the arm that discards DataRef::Empty cells")
             else:
                 rep.violation("R-TIGHT", key, loc(n), "%s pushes a cell without first discarding DataRef::Empty cells: the range would no longer be the bounding rectangle of the non-empty cells" % fn.name)
@@ -439,10 +481,28 @@ def r_tight(ctx, rep):
                 if f["name"] == "val" and "Empty" in variants_built(f["e"], "DataRef"):
                     ok_val = True
         ok_cond = False
+        # locals destructured as the first component of a `.pos` pair: `let (first_row, first_col) = c.pos`,
+        # `if let Some((first_row, first_col)) = cells.first().map(|c| c.pos)`
+        row_locals = set()
+        for node in walk(fn.body):
+            src = None
+            if node.get("k") == "Let" and node.get("init") is not None:
+                src, pats = node["init"], [node["pat"]]
+            elif node.get("k") == "Match" and node.get("src") != "TryDesugar":
+                src, pats = node["scrut"], [a["pat"] for a in node["arms"]]
+            if src is None or not any(f.get("k") == "Field" and f.get("name") == "pos" for f in walk(src)):
+                continue
+            for p_ in pats:
+                for t in walk_k(p_, "Tuple"):
+                    if t.get("pats") and t["pats"][0].get("k") == "Binding":
+                        row_locals.add(t["pats"][0]["lid"])
+
+        def is_row(e):
+            return _is_pos_row(e) or (path_local(e) and path_local(e)[1] in row_locals)
         for x in anc:
             if x.get("k") == "If" and any(y is n for y in walk(x["then"])):
-                for c in walk_k(x["cond"], "Binary"):
-                    if c["op"] == "!=" and ((_is_pos_row(c["l"]) and path_local(c["r"]) and path_local(c["r"])[1] in lids) or (_is_pos_row(c["r"]) and path_local(c["l"]) and path_local(c["l"])[1] in lids)):
+                for c in (b for ce in cond_exprs(fn.body, x["cond"]) for b in walk_k(ce, "Binary")):
+                    if c["op"] == "!=" and ((is_row(c["l"]) and path_local(c["r"]) and path_local(c["r"])[1] in lids) or (is_row(c["r"]) and path_local(c["l"]) and path_local(c["l"])[1] in lids)):
                         ok_cond = True
         if ok_idx and ok_row and ok_val and ok_cond:
             rep.holds("R-TIGHT", key, loc(n), "an Empty cell at (n, first column) is inserted in front iff the first kept cell is not on row n")
